@@ -3,6 +3,7 @@
 package vatomic
 
 import (
+	"runtime"
 	"sync/atomic"
 	"unsafe"
 
@@ -10,6 +11,12 @@ import (
 )
 
 func pt(addr unsafe.Pointer, write bool) {
+	if vsched.Killed() {
+		// the execution is being torn down: a thread that reaches an atomic operation now (typically
+		// a spin loop inside a deferred call, which would wait for ever for a value nobody will write
+		// any more) ends here; its remaining deferred calls still run
+		runtime.Goexit()
+	}
 	if vsched.Passthrough() {
 		return
 	}
